@@ -113,6 +113,7 @@ pub const MUTATIONS: &[&str] = &[
     "dao_c", "dao_u", "dao_ar", "dao_s", "target", "epoch_index", "epoch_length",
     "reward_plus_one", "reward_minus_one", "reward_lock", "cellbase_extra_output_early",
     "no_extension", "bad_chain_root", "short_extension",
+    "uncle_sibling", "uncle_duplicate", "uncle_double_inclusion", "commit_unproposed",
 ];
 
 /// Random block tree. Needs a World to know the shape only (parents by index): the tree is
